@@ -275,8 +275,9 @@ type taskManager struct {
 }
 
 func (t *taskManager) executor(currentTask *task) {
+	finished := false
 	defer func() {
-		panicInfo := recover()
+		panicInfo := safe.PanicValue(recover(), finished) // (a panic(nil) is a panic of the node too)
 		if panicInfo != nil {
 			currentTask.output = nil
 			currentTask.err = safe.NewPanicErr(panicInfo, debug.Stack())
@@ -294,6 +295,7 @@ func (t *taskManager) executor(currentTask *task) {
 
 	ctx := initNodeCallbacks(currentTask.ctx, currentTask.nodeKey, currentTask.call.action.nodeInfo, currentTask.call.action.meta, t.opts...)
 	currentTask.output, currentTask.err = t.runWrapper(ctx, currentTask.call.action, currentTask.input, currentTask.option...)
+	finished = true
 }
 
 func (t *taskManager) submit(tasks []*task) error {
